@@ -1030,4 +1030,54 @@ def rowOK (c : DimCfg) (row : Nat × OpCode × OpCode × Bool) : Bool :=
   let x := Ex.op (formOfNat row.1) (row.2.1.toEx "A") (row.2.2.1.toEx "B")
   (x.wf && (x.dimsC c).isSome) == row.2.2.2
 
+/-! ## Wave 7: the target of an arrayed equation that already has sub-elements
+
+`resetTarget`: `_handle_arrayed` (generic branch) forgets the sub-elements and index names an earlier arrayed
+equation left on the target before it distributes the new per-index equations.  Without that the set-up methods
+only ADD keys: a 3-vector assigned a 2-vector keeps a third, stale entry. -/
+structure TgtCfg where
+  resetTarget : Bool
+deriving DecidableEq, Repr, Inhabited
+
+/-- the description an arrayed result gives a FRESH target -/
+def Result.descr (nm : String) : Result → Elem
+  | .scalar _ => Elem.scalar nm
+  | .vector named es => { name := nm, keys := es.map (·.1), inner := [], named := named }
+  | .matrix rows => Elem.mat nm rows.length (rows.headD []).length
+
+/-- the description of the target `old` after it was assigned an equation with result `r` -/
+def targetAfter (c : TgtCfg) (old : Elem) (r : Result) : Elem :=
+  match r with
+  | .scalar _ => old                        -- a scalar equation does not touch the sub-elements
+  | .vector named es =>
+    if c.resetTarget then r.descr old.name
+    else { old with keys := addKeys old.keys (es.map (·.1)), named := old.named || named }
+  | .matrix rows =>
+    if c.resetTarget then r.descr old.name
+    else { old with keys := addKeys old.keys (rangeKeys rows.length),
+                    inner := addKeys old.inner (rangeKeys (rows.headD []).length) }
+
+def Result.isArr : Result → Bool
+  | .scalar _ => false
+  | _ => true
+
+/-! ### target kinds (wave 7)
+
+A converter, a stock (through its flow term) and a flow hold the per-index equation they are assigned.  A Constant
+"can only contain floating point values": its setter tests `equation == None`, which for an operator builds a (truthy)
+comparison operator, so the operator is DROPPED without an error and the entry keeps the `0` of the set-up
+(`constantKeepsEquation = false`). -/
+inductive TKind
+  | converter | stock | constant
+deriving DecidableEq, Repr, Inhabited
+
+structure KindCfg where
+  constantKeepsEquation : Bool
+deriving DecidableEq, Repr, Inhabited
+
+/-- what an entry of a target of kind `k` evaluates to when the assigned per-index equation evaluates to `v` -/
+def targetEntry {α : Type} (c : KindCfg) (zero : α) : TKind → α → α
+  | .constant, v => if c.constantKeepsEquation then v else zero
+  | _, v => v
+
 end Bptk.C10
